@@ -1036,11 +1036,11 @@ main(int argc, char **argv)
     }
     fprintf(out, "{\"kind\":\"%s\",\"code\":%d,\"stdout_len\":%llu,\"stdout_hash\":\"%016llx\","
             "\"stderr_len\":%llu,\"stderr_hash\":\"%016llx\",\"sanitizer\":%u,\"inv\":%u,"
-            "\"ncp\":%u,\"preemptions\":%u,\"heap_peak\":%llu,\"heap_limit\":%llu,\"threads\":%u,\"stderr_head\":",
+            "\"ncp\":%u,\"preemptions\":%u,\"heap_peak\":%llu,\"heap_live_end\":%llu,\"heap_limit\":%llu,\"threads\":%u,\"stderr_head\":",
             kindname(r.kind), r.code, (unsigned long long)r.out_len, (unsigned long long)r.out_hash,
             (unsigned long long)r.err_len, (unsigned long long)r.err_hash, r.sanitizer,
             vs_rec->inv_flags, vs_rec->ncp, vs_rec->preemptions,
-            (unsigned long long)vs_rec->heap_peak, (unsigned long long)vs_rec->heap_limit_used,
+            (unsigned long long)vs_rec->heap_peak, (unsigned long long)vs_rec->heap_live_end, (unsigned long long)vs_rec->heap_limit_used,
             vs_rec->nthreads);
     json_str(out, r.err_head);
     fputs(",\"note\":", out);
